@@ -170,10 +170,14 @@ def get_left_right_on(
         right_on.append(pred.args[1])
 
         must_swap_cols = None
-        for e in pred.args[0].iter_subtree_postorder():
-            if isinstance(e, Col):
-                must_swap_cols = e._uuid in right_uuids
-                assert must_swap_cols or e._uuid in left_uuids
+        # the side is decided by the first operand that reads a column (the other one may be a constant)
+        for side, arg in enumerate(pred.args):
+            for e in arg.iter_subtree_postorder():
+                if isinstance(e, Col):
+                    must_swap_cols = (e._uuid in right_uuids) == (side == 0)
+                    assert e._uuid in right_uuids or e._uuid in left_uuids
+                    break
+            if must_swap_cols is not None:
                 break
 
         assert must_swap_cols is not None
